@@ -243,43 +243,73 @@ def rule_nm1(ctx: Ctx) -> RuleResult:
             r.ob(good, fail(rel + "::variance._variance{centred}", m, mp,
                             "the population variance must be the second moment about the mean, _moment(acc, _moment(acc, 0, 1), 2); it is %s" % (show(vv) if vv else None), p))
     r.ob(saw, fail(rel + "::variance._variance{paths}", m, mp, "no non-empty path found"))
-    # _moment: sum((x[i] - c)**n) / len(x)
+    # _moment: sum((x[i] - c)**n) / len(x), as an explicit loop or as a comprehension over x
     mm_, mf = ctx.function("rxsci/math/formal/__init__.py", "_moment")
     r.instances += 1
     okm = False
+    X, C, N = ("arg", mm_.scopes[mf].params[0]), ("arg", mm_.scopes[mf].params[1]), ("arg", mm_.scopes[mf].params[2])
     for p in ctx.fn_paths(mm_, mf, max_iter=1):
         r.paths += 1
-        apps = [e for e in p.trace if e.k == "mutate" and e.method == "append"]
-        its = [e for e in p.trace if e.k == "loopiter"]
-        if not its or not apps:
-            continue
-        t = strip_uid(apps[0].args[0])
-        X, C, N = ("arg", "x"), ("arg", "c"), ("arg", "n")
-        lv = its[0].var
-        want = ("binop", "Pow", ("binop", "Sub", ("sub", X, lv), C), N)
-        okterm = t == want and its[0].iter == ("call", ("builtin", "range"), (strip_uid(("call", ("builtin", "len"), (X,))),)) or \
-            (t == want and its[0].iter[0] == "call" and its[0].iter[1] == ("builtin", "range"))
         v = strip_uid(p.value) if p.value is not None else None
-        okret = v is not None and v[0] == "binop" and v[1] == "Div" and v[2][0] == "call" and v[2][1] == ("builtin", "sum") and \
+        if v is None or v[0] != "binop":
+            continue
+        if any(e.k == "loopexit" and e.n == 0 for e in p.trace):
+            continue        # the loop over x is the quantifier over the items, not an optional path
+        okret = v[1] == "Div" and v[2][0] == "call" and v[2][1] == ("builtin", "sum") and \
             v[3][0] == "call" and v[3][1] == ("builtin", "len") and v[3][2][0] == X
-        if v is not None and v[0] == "binop":
-            okm = okm or (okterm and okret)
-            r.ob(okterm and okret, fail("rxsci/math/formal/__init__.py::_moment", mm_, mf,
-                                        "_moment must be sum((x[i] - c) ** n) / len(x); it accumulates %s and returns %s" % (show(t), show(v)), p))
+        summed = v[2][2][0] if okret else None
+        okterm = False
+        shown = None
+        if summed is not None and summed[0] == "comp" and len(summed) >= 5:
+            elt, iters = summed[3], summed[4]
+            shown = elt
+            if len(iters) == 1 and elt[0] == "binop" and elt[1] == "Pow" and elt[3] == N and elt[2][0] == "binop" and elt[2][1] == "Sub" and elt[2][3] == C:
+                item = elt[2][2]
+                # for v in x  /  for i in range(len(x)) with x[i]
+                okterm = (iters[0] == X and item[0] == "compvar") or \
+                    (item[0] == "sub" and item[1] == X and item[2][0] == "compvar" and iters[0][0] == "call" and iters[0][1] == ("builtin", "range"))
+        else:
+            apps = [e for e in p.trace if e.k == "mutate" and e.method == "append"]
+            its = [e for e in p.trace if e.k == "loopiter"]
+            if its and apps:
+                t = strip_uid(apps[0].args[0])
+                shown = t
+                lv = its[0].var
+                okterm = (t == ("binop", "Pow", ("binop", "Sub", ("sub", X, lv), C), N) and its[0].iter[0] == "call" and its[0].iter[1] == ("builtin", "range")) or \
+                    (t == ("binop", "Pow", ("binop", "Sub", lv, C), N) and its[0].iter == X)
+                okterm = okterm and summed == strip_uid(apps[0].base)
+        okm = okm or (okterm and okret)
+        r.ob(okterm and okret, fail("rxsci/math/formal/__init__.py::_moment", mm_, mf,
+                                    "_moment must be sum((x[i] - c) ** n) / len(x); it accumulates %s and returns %s" % (show(shown) if shown else None, show(v)), p))
     r.ob(okm, fail("rxsci/math/formal/__init__.py::_moment{paths}", mm_, mf, "the moment formula was not found"))
     # ---------------- stddev = sqrt(variance) ------------------------------------------
     for rel, inner in (("rxsci/math/stddev.py", "rxsci.math.variance.variance"), ("rxsci/math/formal/stddev.py", "rxsci.math.formal.variance.variance")):
         m, fn = ctx.function(rel, "stddev")
         r.instances += 1
-        lambdas = [n for n in ast.walk(fn) if isinstance(n, ast.Lambda) and "sqrt" in ast.unparse(n)]
-        ok = len(lambdas) == 1 and ast.unparse(lambdas[0].body).replace(" ", "") in (
-            "math.sqrt(i)ifiisnotNoneelseNone", "math.sqrt(i)", "Noneifiis Noneelsemath.sqrt(i)".replace(" ", ""))
-        calls = [n for n in ast.walk(fn) if isinstance(n, ast.Call) and dotted_name(n.func) and dotted_name(n.func).endswith("variance")]
+        calls = [n for n in ast.walk(fn) if isinstance(n, ast.Call) and dotted_name(n.func)]
         inner_ok = False
+        var_call = None
         for c in calls:
             ref = ctx.program.resolve_dotted(m, dotted_name(c.func))
             if ref[0] == "def" and "%s.%s" % (ref[1].name, ref[2].name) == inner:
-                inner_ok = [ast.unparse(a) for a in c.args] == ["key_mapper"]
-        r.ob(ok and inner_ok, fail(rel + "::stddev", m, fn, "stddev must be math.sqrt of %s(key_mapper, reduce=reduce)" % inner))
+                var_call = c
+                args = [ast.unparse(a) for a in c.args] + ["%s=%s" % (k.arg, ast.unparse(k.value)) for k in c.keywords]
+                inner_ok = args in (["key_mapper", "reduce=reduce"], ["key_mapper=key_mapper", "reduce=reduce"], ["key_mapper", "reduce"])
+        r.ob(inner_ok, fail(rel + "::stddev{inner}", m, fn, "stddev must build on %s(key_mapper, reduce=reduce)" % inner))
+        # the mapper applied to the variance: math.sqrt(v) (None forwarded)
+        sq_ok = False
+        if var_call is not None:
+            mp = _mapper_after(ctx, m, fn, var_call)
+            if mp is not None:
+                A0 = ("arg", m.scopes[mp].params[0])
+                rets = []
+                for p in ctx.fn_paths(m, mp):
+                    r.paths += 1
+                    if p.value is not None:
+                        rets.append(strip_uid(p.value))
+                good = [v for v in rets if v == ("call", ("glob", "math.sqrt"), (A0,))]
+                other = [v for v in rets if v not in good and v != ("const", None)]
+                sq_ok = bool(good) and not other
+        r.ob(sq_ok, fail(rel + "::stddev{sqrt}", m, fn, "the standard deviation must be math.sqrt(variance) (None forwarded as None)"))
     r.require_instances(9)
     return r
